@@ -16,7 +16,10 @@ RULE = ("Hypothesis draws a table (mixed-type cells; ragged rows where the funct
         "header=). Oracle: a direct cell-by-cell reference implementation of each function written from its docstring "
         "(pv/ref/rowops.py and this module), compared as a type-strict sequence of tuples; plus the frame laws: one output "
         "row per input row in input order and untouched columns carried over unchanged. Non-trivial = the case exercises a "
-        "ragged row, a duplicate field name or a non-default argument form and has >= 2 data rows. Distinct by digest.")
+        "ragged row, a duplicate field name or a non-default argument form and has >= 2 data rows. Sub 'dupnames': on tables "
+        "whose header repeats a field name, every way of reading that field by name (values, cut, the three mapping forms of "
+        "fieldmap, record access in addfield/rowmap/records) must read the same column, and it must be a column of that name "
+        "(which one is not claimed). Distinct by digest.")
 ASSUMPTIONS = [
     "negative *field* indices are undocumented and not generated; movefield only with the moved name unique",
     "skipcomments: rows with >= 1 cell (an empty row has no first value)",
@@ -817,5 +820,41 @@ def check(case, ctx):
     return None
 
 
-SUBS = [Sub("rowops", check, strategy=case, quick=24000, thorough=400000)]
+# ---- repeated field names: every by-name reader must read the same column -----------------------------------------
+@st.composite
+def dup_case(draw, tier):
+    hdr = draw(st.sampled_from([["k", "v", "w", "v"], ["v", "k", "v"], ["k", "v", "v", "w"], ["w", "v", "k", "w", "v"]]))
+    tbl = draw(gen.table(hdr, [gen.scalar] * len(hdr), max_rows=5, min_rows=1))
+    return {"table": tbl, "name": draw(st.sampled_from([f for f in set(hdr) if hdr.count(f) > 1]))}
+
+
+def check_dup(case, ctx):
+    tbl, f = case["table"], case["name"]
+    hdr = tbl[0]
+    cols = [i for i, h in enumerate(hdr) if h == f]
+    ctx.nontrivial(any(len({codec.dumps(r[i]) for i in cols}) > 1 for r in tbl[1:]))
+    T = lambda: codec.snapshot(tbl)  # noqa
+    readers = collections.OrderedDict()
+    try:
+        readers["values"] = list(etl.values(T(), f))
+        readers["cut"] = [r[0] for r in etl.data(etl.cut(T(), f))]
+        readers["fieldmap-name"] = [r[0] for r in etl.data(etl.fieldmap(T(), collections.OrderedDict([("o", f)])))]
+        readers["fieldmap-fn"] = [r[0] for r in etl.data(etl.fieldmap(T(), collections.OrderedDict([("o", (f, lambda v: v))])))]
+        readers["fieldmap-rec"] = [r[0] for r in etl.data(etl.fieldmap(T(), collections.OrderedDict([("o", lambda rec: rec[f])])))]
+        readers["addfield-rec"] = [r[-1] for r in etl.data(etl.addfield(T(), "zz", lambda rec: rec[f]))]
+        readers["records"] = [rec[f] for rec in etl.records(T())]
+        readers["rowmap-rec"] = [r[0] for r in etl.data(etl.rowmap(T(), lambda rec: [rec[f]], header=["o"]))]
+    except Exception as ex:
+        return exc_fail("dupnames", ex)
+    base = readers["values"]
+    for name, got in readers.items():
+        if not codec.strict_eq(list(got), list(base)):
+            return Fail("dupnames/%s-disagrees" % name, "field %r of %r read through %s gives %r, through values() %r" % (f, tbl, name, got, base))
+    if not any(codec.strict_eq(list(base), [r[i] for r in tbl[1:]]) for i in cols):
+        return Fail("dupnames/not-a-column", "values(%r, %r) gave %r, which is none of the columns of that name" % (tbl, f, base))
+    return None
+
+
+SUBS = [Sub("rowops", check, strategy=case, quick=24000, thorough=400000),
+        Sub("dupnames", check_dup, strategy=dup_case, quick=1500, thorough=20000)]
 KNOWN = {}
